@@ -1,28 +1,29 @@
 package trzsz
 
+// C14 — a relay only narrows what the ends negotiate, and recovers after every transfer.
+
 import "encoding/json"
 
-func verifNondetBool() bool
-func verifNondetInt() int
-func verifNondetRange(lo, hi int) int
-func verifAssume(bool)
-func verifAssert(bool, string)
-func verifReach(string)
-
-func zzLine(typ string, v any) []byte {
+func zzLine14(typ string, v interface{}) []byte {
 	js, _ := json.Marshal(v)
 	return []byte("#" + typ + ":" + encodeString(string(js)) + "\n")
 }
 
-func zzH_C14_handshake() {
+func zzRelay14() *TrzszRelay {
 	r := &TrzszRelay{
-		osStdinChan:    make(chan []byte, 10),
-		osStdoutChan:   make(chan []byte, 10),
-		bypassTmuxChan: make(chan []byte, 10),
-		stdinBuffer:    newTrzszBuffer(),
-		stdoutBuffer:   newTrzszBuffer(),
-		trigger:        &trzszTrigger{mode: 'R'},
+		osStdinChan:  make(chan []byte, 10),
+		osStdoutChan: make(chan []byte, 10),
+		stdinBuffer:  newTrzszBuffer(),
+		stdoutBuffer: newTrzszBuffer(),
+		trigger:      &trzszTrigger{mode: 'R'},
 	}
+	r.bypassTmuxChan = make(chan []byte, 10)
+	return r
+}
+
+// the ACT the relay forwards and the CFG it forwards, for every client capability set and every server configuration
+func zzH_C14_handshake() {
+	r := zzRelay14()
 	if verifNondetBool() {
 		r.tmuxMode = tmuxNormalMode
 	}
@@ -33,50 +34,152 @@ func zzH_C14_handshake() {
 	act.Protocol = verifNondetInt()
 	act.SupportBinary = verifNondetBool()
 	act.SupportDirectory = verifNondetBool()
-	act.TunnelConnected = false
+	act.TunnelConnected = verifNondetBool()
 	act.SupportFork = verifNondetBool()
 	cfg := &transferConfig{Newline: "\n", Timeout: 20}
 	cfg.Binary = verifNondetBool()
 	cfg.Directory = verifNondetBool()
 	cfg.Overwrite = verifNondetBool()
 	cfg.Quiet = verifNondetBool()
+	cfg.Fork = verifNondetBool()
 	cfg.Protocol = verifNondetInt()
 	cfg.MaxBufSize = int64(verifNondetInt())
 	cfg.TmuxOutputJunk = verifNondetBool()
 	cfg.TmuxPaneColumns = int32(verifNondetRange(-1, 300))
-	r.stdinBuffer.addBuffer(zzLine("ACT", act))
-	r.stdoutBuffer.addBuffer(zzLine("CFG", cfg))
+	r.stdinBuffer.addBuffer(zzLine14("ACT", act))
+	r.stdoutBuffer.addBuffer(zzLine14("CFG", cfg))
 	r.handshake()
-	// what reached the server
-	verifAssert(len(r.osStdinChan) == 1, "exactly one ACT forwarded")
+
+	verifAssert(len(r.osStdinChan) == 1, "not exactly one ACT forwarded to the server")
 	fwd := <-r.osStdinChan
 	s, err := decodeRelayBufferString("ACT", fwd[:len(fwd)-1])
-	verifAssert(err == nil, "forwarded ACT decodes")
+	verifAssert(err == nil, "forwarded ACT does not decode")
 	var act2 transferAction
-	verifAssert(json.Unmarshal([]byte(s), &act2) == nil, "forwarded ACT parses")
-	verifAssert(!act2.SupportBinary, "binary offered to the server without a tunnel")
-	verifAssert(act2.Protocol <= kProtocolVersion, "protocol above what the relay understands")
-	verifAssert(act2.Protocol == act.Protocol || act.Protocol > kProtocolVersion, "protocol changed although within range")
-	verifAssert(act2.Confirm == act.Confirm && act2.SupportDirectory == act.SupportDirectory && act2.SupportFork == act.SupportFork, "other action fields changed")
+	verifAssert(json.Unmarshal([]byte(s), &act2) == nil, "forwarded ACT does not parse")
+	if !act.TunnelConnected {
+		verifAssert(!act2.SupportBinary, "binary mode offered to the server without a tunnel")
+	} else {
+		verifAssert(act2.SupportBinary == act.SupportBinary, "binary capability changed although a tunnel is in use")
+	}
+	verifAssert(act2.Protocol <= kProtocolVersion, "protocol raised above what the relay understands")
+	if act.Protocol <= kProtocolVersion {
+		verifAssert(act2.Protocol == act.Protocol, "protocol changed although within range")
+	} else {
+		verifAssert(act2.Protocol == kProtocolVersion, "protocol not clamped to the relay's own version")
+	}
+	verifAssert(act2.Confirm == act.Confirm, "confirm flag changed")
+	verifAssert(act2.SupportDirectory == act.SupportDirectory, "directory capability changed")
+	verifAssert(act2.SupportFork == act.SupportFork, "fork capability changed")
+	verifAssert(act2.TunnelConnected == act.TunnelConnected, "tunnel flag changed")
+	verifAssert(act2.Newline == act.Newline, "newline changed")
 	if !act.Confirm {
 		verifAssert(r.relayStatus.Load() == kRelayStandBy, "refused transfer leaves the relay out of standby")
+		verifAssert(len(r.bypassTmuxChan) == 0, "CFG forwarded although the client refused")
+		verifAssert(!r.tunnelConnected.Load(), "tunnel state kept after the relay returned to standby")
 		verifReach("refused")
 		return
 	}
-	verifAssert(r.relayStatus.Load() == kRelayTransferring, "confirmed handshake must end transferring")
-	out := r.bypassTmuxChan
-	verifAssert(len(out) == 1, "exactly one CFG forwarded")
-	fwd = <-out
+	verifAssert(r.relayStatus.Load() == kRelayTransferring, "confirmed handshake does not end in transferring")
+	verifAssert(len(r.bypassTmuxChan) == 1, "not exactly one CFG forwarded to the client")
+	fwd = <-r.bypassTmuxChan
 	s, err = decodeRelayBufferString("CFG", fwd[:len(fwd)-1])
-	verifAssert(err == nil, "forwarded CFG decodes")
+	verifAssert(err == nil, "forwarded CFG does not decode")
 	var cfg2 transferConfig
-	verifAssert(json.Unmarshal([]byte(s), &cfg2) == nil, "forwarded CFG parses")
-	verifAssert(cfg2.TmuxOutputJunk == (cfg.TmuxOutputJunk || r.tmuxMode == tmuxNormalMode), "junk flag")
+	verifAssert(json.Unmarshal([]byte(s), &cfg2) == nil, "forwarded CFG does not parse")
+	verifAssert(cfg2.TmuxOutputJunk == (cfg.TmuxOutputJunk || r.tmuxMode == tmuxNormalMode), "tmux junk flag")
 	if cfg.TmuxPaneColumns > 0 {
-		verifAssert(cfg2.TmuxPaneColumns == cfg.TmuxPaneColumns, "server pane width dropped")
+		verifAssert(cfg2.TmuxPaneColumns == cfg.TmuxPaneColumns, "the server's pane width was overwritten")
 	} else if r.tmuxPaneWidth > 0 {
-		verifAssert(cfg2.TmuxPaneColumns == r.tmuxPaneWidth, "relay pane width not added")
+		verifAssert(cfg2.TmuxPaneColumns == r.tmuxPaneWidth, "the relay's pane width was not added")
+	} else {
+		verifAssert(cfg2.TmuxPaneColumns == cfg.TmuxPaneColumns, "pane width invented")
 	}
-	verifAssert(cfg2.Binary == cfg.Binary && cfg2.Directory == cfg.Directory && cfg2.Overwrite == cfg.Overwrite && cfg2.Quiet == cfg.Quiet && cfg2.Protocol == cfg.Protocol && cfg2.MaxBufSize == cfg.MaxBufSize && cfg2.Timeout == cfg.Timeout, "server settings dropped")
+	verifAssert(cfg2.Binary == cfg.Binary, "server setting dropped: binary")
+	verifAssert(cfg2.Directory == cfg.Directory, "server setting dropped: directory")
+	verifAssert(cfg2.Overwrite == cfg.Overwrite, "server setting dropped: overwrite")
+	verifAssert(cfg2.Quiet == cfg.Quiet, "server setting dropped: quiet")
+	verifAssert(cfg2.Fork == cfg.Fork, "server setting dropped: fork")
+	verifAssert(cfg2.Protocol == cfg.Protocol, "server setting changed: protocol")
+	verifAssert(cfg2.MaxBufSize == cfg.MaxBufSize, "server setting changed: bufsize")
+	verifAssert(cfg2.Timeout == cfg.Timeout, "server setting changed: timeout")
+	verifAssert(cfg2.Newline == cfg.Newline, "server setting changed: newline")
 	verifReach("confirmed")
+}
+
+type zzGate14 struct{ ch chan []byte }
+
+func (g *zzGate14) Read(p []byte) (int, error) {
+	b := <-g.ch
+	return copy(p, b), nil
+}
+
+var zzMarkers14 = []string{"#EXIT:", "#FAIL:", "#fail:"}
+
+// while transferring: an end marker in either direction (or a lone Ctrl-C from the client) returns the relay to
+// standby with the tunnel state cleared, the chunk itself passing through; afterwards the next trigger is handled
+func zzH_C14_markers() {
+	r := zzRelay14()
+	r.bypassTmuxChan = r.osStdoutChan
+	cin, sout := &zzGate14{make(chan []byte, 4)}, &zzGate14{make(chan []byte, 4)}
+	r.clientIn, r.serverOut = cin, sout
+	r.relayStatus.Store(kRelayTransferring)
+	r.tunnelConnected.Store(verifNondetBool())
+	go r.wrapInput()
+	go r.wrapOutput()
+	var chunk []byte
+	kind := verifNondetRange(0, 4)
+	fromClient := verifNondetBool()
+	pre, post := verifNondetRange(0, 2), verifNondetRange(0, 2)
+	switch kind {
+	case 3:
+		verifAssume(fromClient)
+		chunk = []byte{3}
+	case 4: // ordinary transfer data: no marker
+		for i := 0; i < 1+pre+post; i++ {
+			c := verifNondetByte()
+			verifAssume(c != '#')
+			verifAssume(c != 3)
+			chunk = append(chunk, c)
+		}
+	default:
+		for i := 0; i < pre; i++ {
+			chunk = append(chunk, verifNondetByte())
+		}
+		chunk = append(chunk, zzMarkers14[kind]...)
+		for i := 0; i < post; i++ {
+			chunk = append(chunk, verifNondetByte())
+		}
+	}
+	want := make([]byte, len(chunk))
+	copy(want, chunk)
+	var got []byte
+	if fromClient {
+		cin.ch <- chunk
+		verifQuiesce()
+		verifAssert(len(r.osStdinChan) == 1, "chunk not forwarded to the server")
+		got = <-r.osStdinChan
+	} else {
+		sout.ch <- chunk
+		verifQuiesce()
+		verifAssert(len(r.osStdoutChan) == 1, "chunk not forwarded to the client")
+		got = <-r.osStdoutChan
+	}
+	verifAssert(len(got) == len(want), "chunk altered while transferring")
+	for i := range want {
+		verifAssert(got[i] == want[i], "chunk altered while transferring")
+	}
+	if kind == 4 {
+		verifAssert(r.relayStatus.Load() == kRelayTransferring, "relay left the transfer on ordinary data")
+		verifReach("data")
+		return
+	}
+	verifAssert(r.relayStatus.Load() == kRelayStandBy, "relay did not return to standby at the end of the transfer")
+	verifAssert(!r.tunnelConnected.Load(), "tunnel state kept after the transfer ended")
+	verifReach("ended")
+	// the next transfer through the same relay is recognised again
+	sout.ch <- []byte("::TRZSZ:TRANSFER:R:1.1.5:0000000000300\r\n")
+	verifQuiesce()
+	verifAssert(r.relayStatus.Load() == kRelayHandshaking, "next trigger not handled after the relay returned to standby")
+	verifAssert(len(r.osStdoutChan) == 1, "next trigger not forwarded")
+	verifReach("again")
 }
